@@ -167,6 +167,11 @@ func (g *gsm7Decoder) Transform(dst, src []byte, atEOF bool) (nDst, nSrc int, er
 	if len(src) == 0 {
 		return 0, 0, nil
 	}
+	// a message is transformed as a whole (septet packing, escape pairs and the CR fill depend on where it ends):
+	// ask for more source until the caller says this is all of it.
+	if !atEOF {
+		return 0, 0, transform.ErrShortSrc
+	}
 
 	septets := src
 	if g.packed {
@@ -287,6 +292,11 @@ func (g *gsm7Encoder) Reset() {
 func (g *gsm7Encoder) Transform(dst, src []byte, atEOF bool) (nDst, nSrc int, err error) {
 	if len(src) == 0 {
 		return 0, 0, nil
+	}
+	// a message is transformed as a whole (septet packing, escape pairs and the CR fill depend on where it ends):
+	// ask for more source until the caller says this is all of it.
+	if !atEOF {
+		return 0, 0, transform.ErrShortSrc
 	}
 
 	text := string(src) // work with []rune (a.k.a string) instead of []byte
